@@ -11,6 +11,8 @@ CONSTANTS
   Externals <- X_std
   Modes = {"none", "H", "P", "HP"}
   Filters <- F_nested
-  Fixed = TRUE
+  FixKey = TRUE
+  FixLeaving = TRUE
+  FixRegister = TRUE
 INVARIANTS C13_NodesExact C13_EdgesExact C13_QuotientExact C13_DotEdgesBetweenDisplayed C13_EachTypeOnce C13_Reference
            C13_MergeNoSelfLoop C13_MergeBetweenNodes
